@@ -177,6 +177,18 @@ Theorem cc_dijkstra_finite : forall dist knn N,
 Proof. exact main_cc_dijkstra_finite. Qed.
 Print Assumptions cc_dijkstra_finite.
 
+(* the landmark overload (Landmark Isomap, after fix F4): every entry of every landmark row finite *)
+Theorem cc_landmark_finite : forall dist knn N,
+  (forall k, k <= N - 1 -> is_knn_graph dist N k (knn k)) -> 1 <= N ->
+  forall k k' g, 1 <= k ->
+  find_neighbors is_connected_fixed knn N N k true = COk (k', g) ->
+  forall fl w pick lm, Dijkstra_Spec.nonneg_w g w -> Dijkstra_Proof_Base.pick_ok pick ->
+  Forall (fun v => v < N) lm ->
+  exists m, Dijkstra_Model.landmark_matrix_fixed fl g w pick N lm = Dijkstra_Model.DOk m /\
+    forall r j, r < length lm -> j < N -> exists z, Dijkstra_Spec.entry_of m r j = Some z.
+Proof. exact main_cc_landmark_finite. Qed.
+Print Assumptions cc_landmark_finite.
+
 (* the old recursion on the 8-point witness: the same routine leaves an entry infinite *)
 Theorem fn_shipped_dijkstra_refuted :
   exists pts k,
